@@ -16,8 +16,9 @@ if [ ! -x "$BIN" ] || [ -n "$(find "$HERE/checker" -newer "$BIN" \( -name '*.go'
 if [ "$ID" = "warm" ]; then "$BIN" -warm -repo "$REPO"; exit $?; fi
 EXTRA=()
 if [ "${1:-}" = "--replay" ]; then EXTRA=(-replay "$2"); fi
-mkdir -p "$HERE/evidence"
-"$BIN" -prop "$ID" -tier "$TIER" -repo "$REPO" -out "$HERE/evidence/$ID.json" -known "$HERE/known_findings.json" \
-   -replay-out "$HERE/evidence/replay/$ID-$TIER.json" -variants "$HERE/variants" "${EXTRA[@]}"
+EVD="${VERIF_EVIDENCE_DIR:-$HERE/evidence}"
+mkdir -p "$EVD"
+"$BIN" -prop "$ID" -tier "$TIER" -repo "$REPO" -out "$EVD/$ID.json" -known "$HERE/known_findings.json" \
+   -replay-out "$EVD/replay/$ID-$TIER.json" -variants "$HERE/variants" "${EXTRA[@]}"
 rc=$?
 exit $rc
